@@ -33,6 +33,18 @@ def zmqPaths : List Path := [
   { root := "RegProcessor.RegisterUnidirectional", name := "base", fams := [], early := false, ops := [.lock, .unlock] }
 ]
 
+/-- both mutexes in one program, lock operations only (0 = `selectorMutex`, 1 = `zmqMutex`) -/
+def lockOrderPaths : List (String × List (Nat × Op)) := [
+  ("RegProcessor.RegisterBidirectional", []),
+  ("RegProcessor.RegisterBidirectional", [(0, .rlock), (0, .runlock)]),
+  ("RegProcessor.RegisterBidirectional", [(1, .lock), (1, .unlock)]),
+  ("RegProcessor.RegisterBidirectional", [(0, .rlock), (0, .runlock), (1, .lock), (1, .unlock)]),
+  ("RegProcessor.RegisterUnidirectional", []),
+  ("RegProcessor.RegisterUnidirectional", [(1, .lock), (1, .unlock)]),
+  ("RegProcessor.ReloadSubnets", []),
+  ("RegProcessor.ReloadSubnets", [(0, .lock), (0, .unlock)])
+]
+
 def selectorPrograms : List (List Op) := selectorPaths.map (·.ops)
 def zmqPrograms : List (List Op) := zmqPaths.map (·.ops)
 
